@@ -26,11 +26,23 @@
                                                              arguments = explicit copy first)
    The histories quantified over include Array::append(const T*, n) with a pointer into the array's
    own storage (OAppendRange x x i n), Array::remove(const Iterator&), removeFront() and
-   removeBack() (ORemVia).
+   removeBack() (ORemVia), and - third round - the (capacity) constructors (ONewCap), find (OFind),
+   PoolList::append(a1..an) with 0..7 constructor arguments that may be references to its own
+   elements (OEmplace), Array::append(const T*, n) from elements outside every container
+   (OAppendVals), Map / MultiMap::insert(position, key, value) (OInsHint: all hints; the branch
+   that assigns to the hinted element), Map::insert(const Map&) through the hinted insert
+   (OAddAll on a Map, also with itself) and List::sort (OSort: the quicksort of the code as it
+   is now, elements exchanged through a temporary).  Every theorem below is about this
+   extended language.  Specific to it:
+     sort_moves_payloads_only      sort leaves the container holding the very same instances, the
+                                   live instances are the same ones, the content is the sorted
+                                   permutation
+     hinted_insert_is_plain_insert the position hint changes nothing of what happens to instances
+     find_refines_spec             find returns the first element with that key / value
    All theorems are about the Model (LifeModel.v); its tie to the C++ code is the
    correspondence check (checks/C04.py).  Memory below the model's allocations (the allocator
    itself) is observed by ASan/the ledger of the harness only. *)
-From Coq Require Import ZArith List Bool.
+From Coq Require Import ZArith List Bool Permutation.
 From Life Require Import LifeSpec LifeModel LifeBase LifeSpecProofs LifeStep LifeMain LifeAlias LifeCount.
 Import ListNotations.
 
@@ -121,6 +133,34 @@ Theorem ledger_accepts_every_prefix : forall (nv : nat) (ops : list op) (st : st
 Proof. exact ledger_accepts_every_prefix_proof. Qed.
 Print Assumptions ledger_accepts_every_prefix.
 
+(* List::sort(): in every reachable state the operation succeeds on a list (step_refines_spec), the
+   variables hold the very same instances afterwards, the set of live instances is unchanged - the
+   temporaries of the exchanges are gone, no stored element was destroyed or constructed anew - and
+   the content is the sorted permutation of the old content. *)
+Theorem sort_moves_payloads_only : forall (nv : nat) (ops : list op) (st : state) (x : nat) (st' : state),
+  run (init nv) ops = Ok st -> step st (OSort x) = Ok (true, st') ->
+  svars st' = svars st /\ Permutation (dom (heap (sw st'))) (dom (heap (sw st))) /\
+  exists l, sget (abs st) x = Some (KList, l) /\ sget (abs st') x = Some (KList, spec_sort l).
+Proof. exact sort_moves_payloads_only_proof. Qed.
+Print Assumptions sort_moves_payloads_only.
+
+(* Map / MultiMap::insert(position, key, value) in a reachable state: whatever the hint, the same
+   computation as insert(key, value) - same events in the same order, same result (outside the
+   MultiMap case hint_tie that the spec leaves open). *)
+Theorem hinted_insert_is_plain_insert : forall (nv : nat) (ops : list op) (st : state) (x : nat) (n : nc) (p : pos) (kr vr : nat),
+  run (init nv) ops = Ok st -> getv (svars st) x = Some (CN n) -> sorted (ckind n) = true ->
+  In kr (dom (heap (sw st))) ->
+  hint_tie (ckind n) (map (val (sw st)) (sel_ids (ckind n) (citems n))) (pos_idx p (length (citems n))) (val (sw st) kr) = false ->
+  nc_insert_hint n p kr vr (sw st) = nc_insert n PBack kr (VRef vr) (sw st).
+Proof. exact hinted_insert_is_plain_proof. Qed.
+Print Assumptions hinted_insert_is_plain_insert.
+
+(* find returns what the spec says: the index of the first element with that key / value. *)
+Theorem find_refines_spec : forall (nv : nat) (ops : list op) (st : state) (x : nat) (ka : arg),
+  run (init nv) ops = Ok st -> model_found st x ka = spec_found (abs st) x ka.
+Proof. exact find_refines_spec_proof. Qed.
+Print Assumptions find_refines_spec.
+
 (* ---------------------------------------------------------------------------------------- *)
 (* non-vacuity                                                                                *)
 (* ---------------------------------------------------------------------------------------- *)
@@ -202,3 +242,79 @@ Example alias_range_nonvacuous :
                       ORemVia VIter 0 1; ORemVia VBack 0 0; ORemVia VFront 0 0]
   = [Some (KArray, [(None, Some 4%Z)]); None; None].
 Proof. split; vm_compute; reflexivity. Qed.
+
+(* ---- third round ---- *)
+Definition example_history3 : list op :=
+  [ONew 0 KList; OIns 0 PBack (AVal 0) (AVal 5); OIns 0 PBack (AVal 0) (AVal 3); OIns 0 PBack (AVal 0) (AVal 9);
+   OIns 0 PBack (AVal 0) (AVal 1); OIns 0 PBack (AVal 0) (AVal 3); OSort 0; OFind 0 (AValOf 0 1);
+   ONewCap 1 KArray 5; OIns 1 PBack (AVal 0) (AVal 1); OAppendVals 1 [4; 5; 6; 7; 8]%Z; ODel 1;
+   ONew 1 KPoolList; OEmplace 1 []; OEmplace 1 [AVal 5]; OEmplace 1 [AValOf 1 1; AVal 3];
+   OEmplace 1 [AValOf 1 0; AValOf 1 1; AValOf 1 2; AVal 4; AVal 5; AVal 6; AVal 7];
+   ONew 2 KMap; OIns 2 PBack (AVal 5) (AVal 50); OIns 2 PBack (AVal 3) (AVal 30); OInsHint 2 PFront (AVal 1) (AVal 10);
+   OInsHint 2 (PAt 2) (AVal 5) (AVal 55); OInsHint 2 (PAt 0) (AKey 2 2) (AValOf 2 0); OAddAll 2 PBack 2; ODel 1;
+   ONewCap 1 KHashSet 1; OIns 1 PBack (AVal 1) (AVal 0); OIns 1 PBack (AVal 2) (AVal 0); OAddAll 1 PBack 1; ORemAll 1 1].
+
+Example lifetimes_nonvacuous3 :
+  match run (init 3) example_history3 with
+  | Ok st => match finish st with
+             | Ok st' => well_bracketed (log (sw st')) && Nat.ltb 130 (length (log (sw st')))
+             | Err _ => false
+             end
+  | Err _ => false
+  end = true /\
+  spec_run (sinit 3) example_history3 =
+  [Some (KList, [(None, Some 1); (None, Some 3); (None, Some 3); (None, Some 5); (None, Some 9)]);
+   Some (KHashSet, []);
+   Some (KMap, [(Some 1, Some 10); (Some 3, Some 30); (Some 5, Some 10)])]%Z.
+Proof. split; vm_compute; reflexivity. Qed.
+
+(* sort: 18 exchanges through a temporary happen, and the instances are the same before and after *)
+Example sort_nonvacuous :
+  match run (init 1) [ONew 0 KList; OIns 0 PBack (AVal 0) (AVal 5); OIns 0 PBack (AVal 0) (AVal 3); OIns 0 PBack (AVal 0) (AVal 9);
+                      OIns 0 PBack (AVal 0) (AVal 1); OIns 0 PBack (AVal 0) (AVal 3)] with
+  | Ok st => match step st (OSort 0) with
+             | Ok (true, st') => Nat.eqb (length (log (sw st'))) (length (log (sw st)) + 24) &&
+                                 (fix eqb (a b : list nat) := match a, b with
+                                                              | [], [] => true
+                                                              | x :: a', y :: b' => Nat.eqb x y && eqb a' b'
+                                                              | _, _ => false
+                                                              end) (dom (heap (sw st'))) (dom (heap (sw st)))
+             | _ => false
+             end
+  | Err _ => false
+  end = true.
+Proof. vm_compute. reflexivity. Qed.
+
+(* the ledger rejects in-place construction from a dead instance, and a sort whose exchange leaves its
+   temporary alive is not well bracketed *)
+Example ledger_rejects3 :
+  (well_bracketed [EDestroy 2; EMake 2 5%Z [1]; EDestroy 1; EVal 1 5%Z]
+   || well_bracketed [EDestroy 1; EAssign 1 2; EAssign 1 1; ECopy 2 1; EVal 1 5%Z]) = false /\
+  well_bracketed [EDestroy 1; EDestroy 2; EAssign 1 2; EAssign 1 1; ECopy 2 1; EVal 1 5%Z] = true.
+Proof. split; vm_compute; reflexivity. Qed.
+
+(* the position hint: end() behind a smaller key, an item in front of a greater key, the item with
+   the key itself (assignment, no construction: EAssign only), a useless hint *)
+Example hint_nonvacuous :
+  match run (init 1) [ONew 0 KMap; OIns 0 PBack (AVal 5) (AVal 50); OInsHint 0 PBack (AVal 9) (AVal 90); OInsHint 0 (PAt 1) (AVal 7) (AVal 70)] with
+  | Ok st => match step st (OInsHint 0 (PAt 1) (AVal 7) (AVal 71)), step st (OInsHint 0 PFront (AVal 8) (AVal 80)) with
+             | Ok (true, st1), Ok (true, st2) =>
+                 Nat.eqb (length (heap (sw st1))) (length (heap (sw st))) &&
+                 Nat.eqb (length (heap (sw st2))) (length (heap (sw st)) + 2) &&
+                 match sget (abs st1) 0, sget (abs st2) 0 with
+                 | Some (KMap, [(Some 5, Some 50); (Some 7, Some 71); (Some 9, Some 90)]%Z),
+                   Some (KMap, [(Some 5, Some 50); (Some 7, Some 70); (Some 8, Some 80); (Some 9, Some 90)]%Z) => true
+                 | _, _ => false
+                 end
+             | _, _ => false
+             end
+  | Err _ => false
+  end = true.
+Proof. vm_compute. reflexivity. Qed.
+
+Example alias_nonvacuous3 :
+  dealias_run (sinit 3) 2 [ONew 0 KPoolList; OEmplace 0 [AVal 4]; OEmplace 0 [AValOf 0 0; AVal 1; AValOf 0 0];
+                           ONew 1 KMap; OIns 1 PBack (AVal 2) (AVal 7); OInsHint 1 PFront (AKey 1 0) (AValOf 1 0); OFind 1 (AKey 1 0)]
+  = [ONew 0 KPoolList; OEmplace 0 [AVal 4]; OEmplace 0 [AVal 4; AVal 1; AVal 4];
+     ONew 1 KMap; OIns 1 PBack (AVal 2) (AVal 7); OInsHint 1 PFront (AVal 2) (AVal 7); OFind 1 (AVal 2)]%Z.
+Proof. vm_compute. reflexivity. Qed.
